@@ -16,6 +16,9 @@ open Ggql.Scan Ggql.SdlCF
 structure Cfg where
   /-- D05: `readVarDef` accepts a variable definition without a type (`$v: )`), leaving `VarDef.Type` nil -/
   varTypeOptional : Bool := true
+  /-- D64: the "not a valid executable operation type" error is located from the counters after `readToken`'s
+  look-ahead (`p.line, p.col-len(token)`) instead of where the token starts -/
+  opErrPosAfterLookahead : Bool := true
 
 variable (cm : CM) (cfg : Cfg)
 
@@ -234,6 +237,8 @@ def mainLoop : Nat → P → List (List UInt8) → (List (List UInt8) × Option 
       match skipSp cm p with
       | (none, p) => ((ops, some ioErr), p)
       | (some _, p) =>
+        let line0 : Int := p.line
+        let col0 : Int := p.col
         match readToken cm p with
         | ((_, true), p) => ((ops, some ioErr), p)
         | ((tok, false), p) =>
@@ -268,7 +273,8 @@ def mainLoop : Nat → P → List (List UInt8) → (List (List UInt8) × Option 
                   (match e with
                    | some e => (([] :: ops, some e), p)
                    | none => mainLoop n p ([] :: ops))
-          else ((ops, some (p.perrAt p.line ((p.col : Int) - tok.length))), p)
+          else if cfg.opErrPosAfterLookahead then ((ops, some (p.perrAt p.line ((p.col : Int) - tok.length))), p)
+          else ((ops, some (p.perrAt line0 col0)), p)
 
 /-- `parseExe` -/
 def parseExe (fuel : Nat) (bytes : List UInt8) (tail : Tail) : (List (List UInt8) × Option Err) × P :=
